@@ -101,15 +101,19 @@ def handle (j : Json) : Json :=
   let impl := jget j "impl"
   let hasOrigin := jhas j "origin" && (jget j "origin") != Json.null
   let origin := workloadOfJson (jget j "origin")
-  let nodeOk := info.validate && decide (info.use.mem ≤ info.cap.mem) && decide (0 ≤ info.use.mem) &&
-                info.use.cpuMap.all (fun kv => decide (0 ≤ kv.2))
+  -- valid in the plugin's sense (`Validate`), which does not look at node memory: memory usage above
+  -- capacity is in scope for C04 (then: no plans) and C06 (no crash)
+  let nodeOk := info.validate && info.use.cpuMap.all (fun kv => decide (0 ≤ kv.2))
+  let memOk := memValid info
   let cfgOk := decide (1 ≤ B) && (maxShare == -1 || decide (1 ≤ maxShare))
   let crashed := jhas impl "panic" || jhas impl "timeout"
   let crashTag := if jhas impl "panic" then "C06:panic" else "C06:timeout"
   let mk (agree : Bool) (model : Json) (spec : List String) (cls : String) (trivial : Bool) : Json :=
     Json.mkObj [("id", id), ("agree", agree), ("model", model), ("spec", Json.arr (spec.map Json.str).toArray),
                 ("class", cls), ("trivial", trivial)]
-  if op == "plans" then
+  if jhas impl "enverr" then
+    mk true Json.null [] "env-error" true
+  else if op == "plans" then
     let req : Req := { bind := true, cpuNum := raw.cpuReq.toNat, cpuDen := 1000, mem := raw.memReq }
     let org := if hasOrigin then origin.cpuMap else []
     let implPlans := (jarr (jget impl "plans")).map cpuPlanOfJson
@@ -160,7 +164,7 @@ def handle (j : Json) : Json :=
             (if w.bind then planViolations info B w.cpuReq.toNat 1000 w.memReq plans
              else (if fitMemory info.available.mem w.memReq implWs.length then [] else ["C04:memory"])) ++
             (if bound.all fun x => nearestPieces x.cpuReq.toNat 1000 B (planTotal x.cpuMap) then [] else ["C05:recorded"]) ++
-            (if implCommit == "ok" && (match commit info implWs with | .ok i' => memValid i' | _ => false) then [] else ["C04:commit"])
+            (if implCommit == "ok" && (match commit info implWs with | .ok i' => memValid i' || !memOk | _ => false) then [] else ["C04:commit"])
           else []
         let modTies := !exact && decide (12 < fullPlanBound B info) && viol.isEmpty &&
           (match m with | .ok ws => ws.length == implWs.length | _ => false)
